@@ -516,7 +516,39 @@ class C10(Check):
         stats.extra["pickle_layers"] = getattr(self, "stats10", {})
         v = [Violation("oracle", m, sc) for (m, sc) in self._viol[:5]]
         self._viol = []
+        m = self.slotted_probe(stats)
+        if m:
+            v.append(Violation("oracle", m, ["sweep:slotted subclasses"]))
         return v
+
+    @staticmethod
+    def slotted_probe(stats):
+        """user subclasses that add `__slots__` (state = (dict, slots) from protocol 2 on) and objects none of whose
+        uids has been read before the dump: the copy has the same classes, slot values, uids and structure"""
+        import pool
+        from edgegraph.structure import DirectedEdge as D_
+        n = 0
+        for proto in (2, 3, 4, 5):
+            for loader in (pickle, dill):
+                a, b = pool.Slotted(), pool.Slotted(attributes={"name": "b"})
+                a.weight = 5
+                u = pool.SlottedU(vertices=[a, b])
+                u.region = ("eu", 1)
+                e = D_(a, b)
+                root = [u, a, b, e]
+                try:
+                    data = nrpickler.dumps(root, protocol=proto)       # before anything has read a uid of these objects
+                    u2, a2, b2, e2 = loader.loads(data)
+                except Exception as exc:  # noqa: BLE001
+                    return "slotted subclasses, protocol %d, %s: %s: %s" % (proto, loader.__name__, type(exc).__name__, exc)
+                n += 1
+                want = (5, ("eu", 1), "b", [a.uid, b.uid], [u.uid], e.uid, u.uid, u.laws.uid, [a.uid, b.uid], False)
+                got = (getattr(a2, "weight", None), getattr(u2, "region", None), getattr(b2, "name", None), [x.uid for x in u2.vertices],
+                       [x.uid for x in a2.universes], e2.uid, u2.uid, u2.laws.uid, [x.uid for x in e2.vertices], hasattr(b2, "weight"))
+                if got != want or type(a2) is not pool.Slotted or type(u2) is not pool.SlottedU or a2.links != (e2,):
+                    return "slotted subclasses, protocol %d, %s: the copy reads %r, the original %r" % (proto, loader.__name__, got, want)
+        stats.extra["slotted_roundtrips"] = n
+        return None
 
     def search(self, tier, rng, real, v):
         return []
